@@ -69,17 +69,20 @@ type plan struct {
 	CloseFlush []bool      `json:"close_flush"`
 }
 
+// vtMulti: virtual-time scenarios may use several members, churn and leader moves.
+var vtMulti bool
+
 func genPlan(rng *rand.Rand, seed uint64, vt bool) plan {
 	p := plan{Seed: seed, VT: vt}
 	p.Brokers = 1 + rng.IntN(3)
 	p.Partitions = 1 + rng.IntN(3)
 	p.Members = 1 + rng.IntN(4)
 	p.Churn = rng.IntN(3)
-	if vt {
-		// Virtual time: one member, then the draining member. With several members (or leader moves) a
-		// source can be left with no usable cursor while acks for its records still arrive; the share
-		// fetch loop then spins until its 1 s ack timer fires, and inside a bubble a spinning goroutine
-		// keeps virtual time from advancing, so the timer never fires.
+	if vt && !vtMulti {
+		// Virtual time, share fetch loop observed to spin (see shareLoopSpins): one member, then the
+		// draining member. With several members (or leader moves) a source can be left with no usable
+		// cursor while acks for its records still arrive; the loop then spins until its 1 s ack timer
+		// fires, and inside a bubble a spinning goroutine keeps virtual time from advancing.
 		p.Members, p.Churn = 1, 0
 	}
 	for i := 0; i < p.Members+p.Churn; i++ {
@@ -120,7 +123,7 @@ func genPlan(rng *rand.Rand, seed uint64, vt bool) plan {
 	nev := rng.IntN(4)
 	for i := 0; i < nev; i++ {
 		ev := planEvent{AtPoll: 1 + rng.IntN(totalPolls)}
-		if p.Brokers > 1 && !vt && rng.IntN(3) > 0 {
+		if p.Brokers > 1 && (!vt || vtMulti) && rng.IntN(3) > 0 {
 			ev.Kind, ev.P, ev.Node = "move", int32(rng.IntN(p.Partitions)), int32(rng.IntN(p.Brokers))
 		} else if p.KillBefore+p.KillAfter > 0 {
 			ev.Kind = "killall"
